@@ -93,6 +93,80 @@ def scan(pkg):
     return written, reads
 
 
+def scan_module_names(pkg):
+    """Module-level variables that are only ever updated and logged (per-process counters, "last ..." records):
+    returns {(module file stem, name)}.  Same rules as for attributes, applied to ast.Name nodes of the defining
+    module; a name that any other module imports, or that is reached as `module.NAME`, counts as read."""
+    out = set()
+    trees = {}
+    for fn in sorted(os.listdir(pkg)):
+        if fn.endswith(".py"):
+            trees[fn[:-3]] = ast.parse(open(os.path.join(pkg, fn), "rb").read().decode("utf-8"))
+    imported, attr_names = set(), set()
+    for stem, tree in trees.items():
+        for node in ast.walk(tree):
+            if isinstance(node, ast.ImportFrom):
+                for al in node.names:
+                    imported.add(al.name)
+            elif isinstance(node, ast.Attribute):
+                attr_names.add(node.attr)
+    for stem, tree in trees.items():
+        top = set()
+        for node in tree.body:
+            targets = node.targets if isinstance(node, ast.Assign) else ([node.target] if isinstance(node, ast.AnnAssign) else [])
+            for t in targets:
+                if isinstance(t, ast.Name):
+                    top.add(t.id)
+        for node in ast.walk(tree):
+            if isinstance(node, ast.Global):
+                top.update(node.names)
+        parents = {}
+        for node in ast.walk(tree):
+            for ch in ast.iter_child_nodes(node):
+                parents[ch] = node
+        verdict = {}
+        for node in ast.walk(tree):
+            if not isinstance(node, ast.Name) or node.id not in top or not isinstance(node.ctx, ast.Load):
+                continue
+            name = node.id
+            par = parents.get(node)
+            benign = False
+            if isinstance(par, ast.Subscript) and par.value is node and isinstance(par.ctx, (ast.Store, ast.Del)):
+                benign = True
+            if isinstance(par, ast.Attribute) and par.value is node and par.attr in MUTATORS:
+                call = parents.get(par)
+                if isinstance(call, ast.Call) and call.func is par and isinstance(parents.get(call), ast.Expr):
+                    benign = True
+            cur = node
+            while not benign and cur in parents:
+                p = parents[cur]
+                if isinstance(p, ast.Call) and cur is not p.func and _is_logger_call(p):
+                    benign = True
+                    break
+                if isinstance(p, ast.AugAssign):
+                    t = p.target
+                    if (isinstance(t, ast.Name) and t.id == name) or \
+                            (isinstance(t, ast.Subscript) and isinstance(t.value, ast.Name) and t.value.id == name):
+                        benign = True
+                        break
+                if isinstance(p, ast.Assign) and cur is p.value and len(p.targets) == 1:
+                    t = p.targets[0]
+                    if (isinstance(t, ast.Name) and t.id == name) or \
+                            (isinstance(t, ast.Subscript) and isinstance(t.value, ast.Name) and t.value.id == name):
+                        benign = True
+                        break
+                if isinstance(p, (ast.FunctionDef, ast.ClassDef, ast.Module)):
+                    break
+                cur = p
+            verdict[name] = verdict.get(name, True) and benign
+        for name in top:
+            if name in imported or name in attr_names or name.startswith("__"):
+                continue
+            if verdict.get(name, False):          # has reads, all of them benign
+                out.add((stem, name))
+    return out
+
+
 def check():
     """Adjusts world.SKIP_ATTRS for the current tree and returns a note for the evidence."""
     from . import world
@@ -108,5 +182,9 @@ def check():
     base = {"_logger", "gcodeParser"}
     world.SKIP_ATTRS.clear()
     world.SKIP_ATTRS.update(base | write_only)
+    world.SKIP_PKG.clear()
+    world.SKIP_PKG.update(scan_module_names(pkg))
     return ("attributes left out of the canonical key because every read of them in %s is a logger argument, a "
-            "self-update or a container store (ast scan): %s" % (pkg, ", ".join(sorted(write_only)) or "none"))
+            "self-update or a container store (ast scan): %s; module-level variables left out for the same reason: %s"
+            % (pkg, ", ".join(sorted(write_only)) or "none",
+               ", ".join(sorted("%s.%s" % k for k in world.SKIP_PKG)) or "none"))
